@@ -29,7 +29,7 @@ def strListVal (l : List (List Nat)) : Val :=
   | [] => .ilist []
   | _ => .slist l
 
-def sliceItem (p : PSlice) : MiniPy.Item := .slice p.start p.stop p.step
+def isliceItem (p : PSlice) : MiniPy.Item := .slice p.start p.stop p.step
 
 /-- an arbitrary naming of the opaque objects -/
 structure IEnc (A : Type) where
@@ -72,14 +72,14 @@ def giEnv (E : IEnc A) (s : Stream A) (key : Val) (isce : Bool) (i : GiIn) : Env
    ("self.root", .obj E.root), ("out", .obj E.self),
    ("out.level", .int s.level), ("out.template", .obj (E.tmpl s.template)),
    ("out.ifilter", .olist (s.ifilter.map E.filt)), ("out.imap", .olist (s.imap.map E.map)),
-   ("out.islice", .tuple (s.islice.map sliceItem))]
+   ("out.islice", .tuple (s.islice.map isliceItem))]
 
 /-- the fields of the returned stream, in the order of `streamVals` -/
 def streamFields : List String := ["@ret", "out.level", "out.ifilter", "out.imap", "out.islice"]
 
 def streamVals (E : IEnc A) (s : Stream A) : List Val :=
   [.obj E.self, .int s.level, .olist (s.ifilter.map E.filt), .olist (s.imap.map E.map),
-   .tuple (s.islice.map sliceItem)]
+   .tuple (s.islice.map isliceItem)]
 
 theorem indexOf_codes (ks : List Name) (k : Name) :
     MiniPy.indexOf? (ks.map codesOf) (codesOf k) = IterData.indexOf? ks k := by
@@ -185,7 +185,7 @@ theorem src_getitem_int (E : IEnc A) (lit : List Char → Option A) (s s' : Stre
   simp only [getitem, Except.ok.injEq] at h
   subst h
   gi_sym
-  simp only [List.map_append, List.map_cons, List.map_nil, sliceItem]
+  simp only [List.map_append, List.map_cons, List.map_nil, isliceItem]
 
 theorem src_getitem_slice (E : IEnc A) (lit : List Char → Option A) (s s' : Stream A) (p : PSlice) (i : GiIn)
     (h : getitem lit s (.slice p) = .ok s') :
@@ -195,7 +195,7 @@ theorem src_getitem_slice (E : IEnc A) (lit : List Char → Option A) (s s' : St
   simp only [getitem, Except.ok.injEq] at h
   subst h
   gi_sym
-  simp only [List.map_append, List.map_cons, List.map_nil, sliceItem]
+  simp only [List.map_append, List.map_cons, List.map_nil, isliceItem]
 
 /-! ### `key` is a `ConstraintExpression`: the filter is appended, its map goes to the FRONT of `imap`; the clause is
     resolved against `self.root` (the second argument the source passes to `build_filter`) -/
@@ -272,7 +272,7 @@ def stagesOf (s : Stream A) : List (MStage A) :=
 
 theorem src_iterdata_iter_eq (E : IEnc A) (s : Stream A) (stream : Nat) :
     runItem [("self.stream", .obj stream), ("self.ifilter", .olist (s.ifilter.map E.filt)),
-             ("self.imap", .olist (s.imap.map E.map)), ("self.islice", .tuple (s.islice.map sliceItem))]
+             ("self.imap", .olist (s.imap.map E.map)), ("self.islice", .tuple (s.islice.map isliceItem))]
         Gen.src_iterdata_iter "@ret"
       = .ok (.pipe stream ((stagesOf s).map (encStage E))) := by
   have hshape : ∃ b1 b2 b3, Gen.src_iterdata_iter =
@@ -286,7 +286,7 @@ theorem src_iterdata_iter_eq (E : IEnc A) (s : Stream A) (stream : Nat) :
   obtain ⟨b1, b2, b3, hb, e1, e2, e3⟩ := hshape
   rw [hb]
   generalize henv0 : ([("self.stream", Val.obj stream), ("self.ifilter", Val.olist (s.ifilter.map E.filt)),
-             ("self.imap", .olist (s.imap.map E.map)), ("self.islice", .tuple (s.islice.map sliceItem))] : Env) = env0
+             ("self.imap", .olist (s.imap.map E.map)), ("self.islice", .tuple (s.islice.map isliceItem))] : Env) = env0
   -- the three loops
   have l1 := fold_stages "f" b1 (fun v => match v with | .obj t => .filt t | _ => .filt 0) 
     ((s.ifilter.map E.filt).map .obj) (by
@@ -301,13 +301,13 @@ theorem src_iterdata_iter_eq (E : IEnc A) (s : Stream A) (stream : Nat) :
       subst e2
       simp (decide := true) only [exec, eval, bind_ok', lookup_setVar_eq, lookup_setVar_ne, hd])
   have l3 := fold_stages "s" b3 (fun v => match v with | .slice a b c => .islice a b c | _ => .filt 0) 
-    ((s.islice.map sliceItem).map Item.toVal) (by
+    ((s.islice.map isliceItem).map Item.toVal) (by
       intro env v src st hv hd
       obtain ⟨t, ht, rfl⟩ := List.mem_map.mp hv
       obtain ⟨p, _, rfl⟩ := List.mem_map.mp ht
       subst e3
       cases hs : p.start <;> cases hp : p.stop <;> cases hk : p.step <;>
-      simp (decide := true) only [exec, eval, bind_ok', lookup_setVar_eq, lookup_setVar_ne, hd, sliceItem, toVal_slice,
+      simp (decide := true) only [exec, eval, bind_ok', lookup_setVar_eq, lookup_setVar_ne, hd, isliceItem, toVal_slice,
         hs, hp, hk, ofOpt_some, ofOpt_none, toOpt_int, toOpt_none, beq_self_eq_true, if_true, if_false,
         Bool.false_eq_true])
   -- run
@@ -320,7 +320,7 @@ theorem src_iterdata_iter_eq (E : IEnc A) (s : Stream A) (stream : Nat) :
   have him : lookup env1 "self.imap" = .ok (.olist (s.imap.map E.map)) := by
     rw [y1 _ (by decide) (by decide)]
     subst henv0; simp (decide := true) only [lookup_setVar_ne, lookup_cons_eq, lookup_cons_ne]
-  have his : lookup env2 "self.islice" = .ok (.tuple (s.islice.map sliceItem)) := by
+  have his : lookup env2 "self.islice" = .ok (.tuple (s.islice.map isliceItem)) := by
     rw [y2 _ (by decide) (by decide), y1 _ (by decide) (by decide)]
     subst henv0; simp (decide := true) only [lookup_setVar_ne, lookup_cons_eq, lookup_cons_ne]
   have hst : lookup env0 "self.stream" = .ok (.obj stream) := by
